@@ -1,4 +1,5 @@
 """CFG utilities over the detailed MIR facts of one body."""
+import os
 from collections import deque
 
 
@@ -98,7 +99,7 @@ class CFG:
             if t["k"] == "switch" and t["on"][0] in ("cp", "mv") and len(t["on"][1]) == 1:
                 # literal-variant folding: `return Err(e)?` / `Err(e)?` — `?` applied to a value built in place as `Err(..)` / `None`
                 # always takes the residual (Break) side; the Continue side is not a path of the program
-                lit = self._literal_variant(b, t["on"][1][0])
+                lit = None if os.environ.get("VERIF_NO_VARIANT_FOLD") else self._literal_variant(b, t["on"][1][0])
                 if lit is not None:
                     keep = [(d, v) for d, v in ss if v == lit]
                     if keep:
